@@ -189,12 +189,13 @@ def extract(ctx):
              "/-- `get_frame`: registered name → name of the Frame object (Earth-centred built-in frames) -/",
              "def frameAlias : List (String × String) := [" + ", ".join(f'("{k}", "{v}")' for k, v in reg) + "]",
              "/-- orientation names in order of first appearance in the links of orient.py -/",
-             "def orientNames : List String := [" + ", ".join(f'"{n}"' for n in names) + "]",
-             "/-- links `a + b` of orient.py as indices into `orientNames`, with the flag: the conversion carries a rotation rate -/",
-             "def orientLinks : List (Nat × Nat × Bool) := [" + ", ".join(f"({names.index(a)}, {names.index(b)}, {'true' if r else 'false'})" for a, b, r in links) + "]",
+             "def covOrientNames : List String := [" + ", ".join(f'"{n}"' for n in names) + "]",
+             "/-- links `a + b` of orient.py as indices into `covOrientNames`, with the flag: the conversion carries a rotation rate -/",
+             "def covOrientLinks : List (Nat × Nat × Bool) := [" + ", ".join(f"({names.index(a)}, {names.index(b)}, {'true' if r else 'false'})" for a, b, r in links) + "]",
              "/-- indices of the frames the property calls non-rotating (harness list NONROT) -/",
              "def claimedNonRotating : List Nat := [" + ", ".join(str(names.index(n)) for n in NONROT) + "]",
              f"def itrfIndex : Nat := {names.index('ITRF')}",
+             f"def g50Index : Nat := {names.index('G50')}",
              "end BeyondVerif.Generated"]
     ch = ["Generated/Frames.lean"] if core.write_if_changed(os.path.join(core.LEAN, "BeyondVerif", "Generated", "Frames.lean"), "\n".join(lines) + "\n") else []
     return ch + instantiate.main()
